@@ -15,7 +15,7 @@ This module constructs the real problems for every emitted case and compares.
 """
 META = {
     "claimed": True,
-    "engine": "Conv.tla + TestProblems.tla",
+    "engine": "Conv.tla + TestProblems.tla + TestProblemsSeq.tla",
     "text": ("TLC checks column/gather consistency, circulant/Toeplitz structure, symmetric-PSF symmetry, flipped-PSF transposition, "
              "constant preservation, Kronecker separability and pad/valid/trim = index definition on every (dim, PSF, BC) of the "
              "bounded instance, the defining relations of the Abel quadrature, Wang's cubic, the Poisson stencil and explicit heat "
@@ -25,7 +25,12 @@ META = {
              "value ELSE documented default (invariants GivenIsUsed, ExactSolutionIsGiven, GivenDataIsData; TableCovered: every option "
              "of the spec's option table that has an admissible value Python treats as false - 0, all-zero arrays - is in the lattice); "
              "every emitted case is replayed into the real Deconvolution1D (incl. legacy), Deconvolution2D, Heat1D, "
-             "Poisson1D, Abel1D, WangCubic with scripted global normal draws, omitting the arguments that are not given."),
+             "Poisson1D, Abel1D, WangCubic with scripted global normal draws, omitting the arguments that are not given. "
+             "TestProblemsSeq.tla continues the machine on ONE assembled object (Fetch / SetData by a new likelihood, in place or "
+             "set_data on the generic problem / SetPrior / refused assignments, cold and warm orders, there and back; invariants "
+             "re-stated after every action, deviations StaleCacheAfterSetData / StaleCacheAfterSetPrior refuted) and every maximal "
+             "behaviour is replayed into one real object: whatever is handed out after a reassignment refers to the same model, the "
+             "CURRENT data and prior, and fetching changes nothing."),
     "note": ("Bounded sizes (1-D dim<=6/7, 2-D dim<=3/4). Not asserted because undocumented (recorded as observations): "
              "orientation (convolution vs correlation) of the legacy circulant matrix for a custom PSF, position of the Defocus "
              "PSF support, the definition of the SNR option (only: one scalar sigma shared by data and likelihood), number of "
@@ -945,6 +950,9 @@ def run(ctx):
     kinds = replay_models(ctx, rt.cases, tier)
     nb = replay_problems(ctx, kinds["problem"])
     check_option_table(ctx, kinds["options"][0])
+    # 4. sequences of public operations on ONE test-problem object (specs/TestProblemsSeq.tla, facet seq/...)
+    from cuqiverif import c17_seq
+    nb += c17_seq.run_seq(ctx, tier)
     # samples
     ex = [c for c in rc.cases if c["kind"] == "conv1d" and c["n"] == 4 and c["m"] == 4 and c["psfname"] == "ramp" and c["bc"] == "mirror"]
     if ex:
@@ -962,14 +970,18 @@ def run(ctx):
         ctx.sample({"case": {k: ex[0][k] for k in ("problem", "args", "used", "falsy", "wform", "data", "svec", "logd")}})
     ctx.rule = ("Conv: one case per (pd, n, m, BC, integer PSF) with the exact integer operator and index map; TestProblems: one case per "
                 "rational operator instance (abel/wang/poisson/heat) and one behaviour (8 actions) per option combination (arguments as "
-                "<given, value> pairs incl. the admissible falsy values of the spec's OptionTable); non-trivial = "
-                "distinct (problem family, comparison kind, configuration)")
+                "<given, value> pairs incl. the admissible falsy values of the spec's OptionTable); TestProblemsSeq: one behaviour per "
+                "(option combination of the lean lattice, route, maximal sequence of Fetch / SetData / SetPrior / Refused with <= MaxRe "
+                "reassignments), compared after every Fetch; non-trivial = "
+                "distinct (problem family, comparison kind, configuration / behaviour, step)")
     ctx.exhaustive = True
     ctx.traces = nb + len(rc.cases)
     ctx.assumptions += ["sizes bounded by the cfg files; floats compared with rtol 1e-10 (operators 1e-12 absolute on unit-scale entries)",
                         "scripted numpy.random.{randn, normal}: first request returns the spec's Z, further requests zeros",
                         "Heat1D: number of time steps and method read from the public model.pde.time_steps / .method",
-                        "SNR option: only 'one scalar sigma shared by data generation and likelihood' is asserted"]
+                        "SNR option: only 'one scalar sigma shared by data generation and likelihood' is asserted",
+                        "seq facet: the values of the first data version / exact values / the model's action are those of an untouched "
+                        "twin built from the same arguments under the same scripted draws (and the spec's numbers where it knows them)"]
 
 
 _REPLAY_CACHE = {}
@@ -994,6 +1006,9 @@ def replay(ctx, case):
     kind = case.get("kind")
     if kind == "model":
         return run(ctx)
+    if kind == "seq":
+        from cuqiverif import c17_seq
+        return c17_seq.replay_case(ctx, case)
     if kind == "legacy":
         rt = _replay_cases(ctx, "TestProblems")
         legacy_match = {}
